@@ -30,9 +30,16 @@
       ref_boolean_name_refuted     params {"True":"v"}: {"Ref":"True"} = UNDEFINED_PARAM_true  lib: 'UNDEFINED_PARAM_true' (and ${True} gives 'v')
    5. Fn::FindInMap
       resolve_find_in_map_leaf / _missing / do_find_in_map_leaf_verbatim / undefined_mapping_text
+      (the map NAME is looked up exactly; the two KEYS by [lookup_bk]: exactly, else -- for the texts "true" / "false", which is how
+       every boolean spelling reaches the lookup -- by the first entry whose key lower-cases to it: library `_mapping_get`, repair of F31)
       find_in_map_unrendered_refuted    leaf "True" / 0 / false returned as written (known finding F14b)   lib: 'True', 0, False
-      find_in_map_literal_key_refuted   Mappings {"M":{"True":{"k":"yes"}}}: FindInMap ["M","True","k"] and ["M",{"Ref":"P"},"k"] with
-                                        P = "True" give UNDEFINED_MAPPING_M_true_k                          lib: the same  (CloudFormation: "yes")
+      do_find_in_map_boolean_key / resolve_find_in_map_boolean_key / _ref_key   a key written like a boolean ("True") in the Mappings is
+                                        found, by the literal key and through a Ref whose value is that text -- provided it is the
+                                        only spelling of that boolean at its level   (was find_in_map_literal_key_refuted, finding F31, until
+                                        the library repair acd13a2: Mappings {"M":{"True":{"k":"yes"}}}, FindInMap ["M","True","k"] and
+                                        ["M",{"Ref":"P"},"k"] with P = "True" gave UNDEFINED_MAPPING_M_true_k; now 'yes': ex_find_in_map_boolean_key)
+      find_in_map_first_spelling_wins   with two spellings {"M":{"TRUE":{"k":"no"},"True":{"k":"yes"}}} the key "True" finds the FIRST
+                                        one in dictionary order                                              lib: 'no' ('yes' with the entries swapped)
    6. Fn::Base64
       resolve_base64_text, resolve_base64_non_text (lib: AttributeError), b64_roundtrip (Validators.b64decode inverts Text.b64encode on
       byte strings), resolve_base64_roundtrip
@@ -588,12 +595,14 @@ Proof.
   apply find_in_map_spec. exact Hwf.
 Qed.
 
-(* any of the three levels missing (or a null leaf): no hypothesis on the shape of the other mappings *)
+(* any of the three levels missing (or a null leaf): no hypothesis on the shape of the other mappings.
+   "Missing" for the two keys is [lookup_bk ... = None] ([lookup_bk_None]: the key is not there as written and, if it is the text
+   "true" / "false", no key there lower-cases to it); with the exact [lookup] the statement is false since the repair of F31 *)
 Theorem do_find_in_map_missing e ms s1 s2 :
   lookup ms (mappings e) = None
   \/ (exists top, lookup ms (mappings e) = Some (VDict top) /\
-        (lookup s1 top = None
-         \/ exists snd_, lookup s1 top = Some (VDict snd_) /\ (lookup s2 snd_ = None \/ lookup s2 snd_ = Some VNull))) ->
+        (lookup_bk s1 top = None
+         \/ exists snd_, lookup_bk s1 top = Some (VDict snd_) /\ (lookup_bk s2 snd_ = None \/ lookup_bk s2 snd_ = Some VNull))) ->
   do_find_in_map e (VStr ms) (VStr s1) (VStr s2) = Ok (VStr (undefined_mapping ms s1 s2)).
 Proof.
   unfold do_find_in_map. intros [H | (top & Ht & [H | (snd_ & Hs & [H | H])])].
@@ -606,8 +615,8 @@ Theorem resolve_find_in_map_missing e m k1 k2 ms s1 s2 :
   resolve e m = Ok (VStr ms) -> resolve e k1 = Ok (VStr s1) -> resolve e k2 = Ok (VStr s2) ->
   lookup ms (mappings e) = None
   \/ (exists top, lookup ms (mappings e) = Some (VDict top) /\
-        (lookup s1 top = None
-         \/ exists snd_, lookup s1 top = Some (VDict snd_) /\ (lookup s2 snd_ = None \/ lookup s2 snd_ = Some VNull))) ->
+        (lookup_bk s1 top = None
+         \/ exists snd_, lookup_bk s1 top = Some (VDict snd_) /\ (lookup_bk s2 snd_ = None \/ lookup_bk s2 snd_ = Some VNull))) ->
   resolve e (FFindInMap m k1 k2) = Ok (VStr (undefined_mapping ms s1 s2)).
 Proof.
   intros Hm H1 H2 H. unfold FFindInMap. rewrite resolve_find_in_map, Hm, H1, H2. cbn [bind].
@@ -616,10 +625,60 @@ Qed.
 Theorem do_find_in_map_leaf_verbatim e ms s1 s2 top snd_ leaf :
   lookup ms (mappings e) = Some (VDict top) -> lookup s1 top = Some (VDict snd_) -> lookup s2 snd_ = Some leaf ->
   leaf <> VNull -> do_find_in_map e (VStr ms) (VStr s1) (VStr s2) = Ok leaf.
-Proof. intros H1 H2 H3 Hn. unfold do_find_in_map. rewrite H1, H2, H3. destruct leaf; try reflexivity. congruence. Qed.
+Proof.
+  intros H1 H2 H3 Hn. unfold do_find_in_map. rewrite H1, (lookup_bk_exact _ _ _ H2), (lookup_bk_exact _ _ _ H3).
+  destruct leaf; try reflexivity. congruence.
+Qed.
 
-(* REFUTED: (a) the result is rendered (F14b: a leaf "True" / 0 / false comes out as written);
-            (b) a literal key is looked up as written: the key "True" is rendered to "true" first and misses the mapping's "True" *)
+(* a key written like a boolean.  [key_text s] is the text a key written [s] (not an SSM reference) reaches the lookup as: boolean
+   spellings lower-cased.  The mapping's key [s] is found by it when it is the only spelling of that boolean at its level; a key that
+   is not a boolean spelling is simply looked up as written. *)
+Definition key_text (s : str) : str := if is_boolish s then lower s else s.
+Definition only_spelling (k : str) (d : list (str * value)) : Prop := forall k', In k' (keys d) -> lower k' = lower k -> k' = k.
+Lemma render_str_key_text ps s : ssm_key s = None -> render_str ps s = key_text s.
+Proof. intros H. unfold render_str, key_text. rewrite H. reflexivity. Qed.
+Lemma lookup_bk_key_text k d (v : value) :
+  lookup k d = Some v -> (is_boolish k = true -> only_spelling k d) -> lookup_bk (key_text k) d = Some v.
+Proof.
+  intros Hl Hu. unfold key_text. destruct (is_boolish k) eqn:B.
+  - apply lookup_bk_spelling; [exact B | exact Hl | exact (Hu eq_refl)].
+  - apply lookup_bk_exact. exact Hl.
+Qed.
+Theorem do_find_in_map_boolean_key e ms s1 s2 top snd_ leaf :
+  lookup ms (mappings e) = Some (VDict top) -> lookup s1 top = Some (VDict snd_) -> lookup s2 snd_ = Some leaf -> leaf <> VNull ->
+  (is_boolish s1 = true -> only_spelling s1 top) -> (is_boolish s2 = true -> only_spelling s2 snd_) ->
+  do_find_in_map e (VStr ms) (VStr (key_text s1)) (VStr (key_text s2)) = Ok leaf.
+Proof.
+  intros H1 H2 H3 Hn U1 U2. unfold do_find_in_map.
+  rewrite H1, (lookup_bk_key_text _ _ _ H2 U1), (lookup_bk_key_text _ _ _ H3 U2). destruct leaf; try reflexivity. congruence.
+Qed.
+(* literal keys: looked up as written, boolean spelling or not *)
+Theorem resolve_find_in_map_boolean_key e ms s1 s2 top snd_ leaf :
+  plain_text ms = true -> ssm_key s1 = None -> ssm_key s2 = None ->
+  lookup ms (mappings e) = Some (VDict top) -> lookup s1 top = Some (VDict snd_) -> lookup s2 snd_ = Some leaf -> leaf <> VNull ->
+  (is_boolish s1 = true -> only_spelling s1 top) -> (is_boolish s2 = true -> only_spelling s2 snd_) ->
+  resolve e (FFindInMap (VStr ms) (VStr s1) (VStr s2)) = Ok leaf.
+Proof.
+  intros Hm K1 K2 H1 H2 H3 Hn U1 U2. unfold FFindInMap. rewrite resolve_find_in_map. cbn [resolve bind].
+  rewrite (plain_text_fixed _ _ Hm), (render_str_key_text _ _ K1), (render_str_key_text _ _ K2).
+  apply (do_find_in_map_boolean_key e ms s1 s2 top snd_ leaf); assumption.
+Qed.
+(* the top-level key through a Ref to a parameter whose value is that text *)
+Theorem resolve_find_in_map_ref_key e ms p s1 s2 top snd_ leaf :
+  plain_text ms = true -> plain_text p = true -> lookup p (params e) = Some (VStr s1) -> ssm_key s1 = None -> ssm_key s2 = None ->
+  lookup ms (mappings e) = Some (VDict top) -> lookup s1 top = Some (VDict snd_) -> lookup s2 snd_ = Some leaf -> leaf <> VNull ->
+  (is_boolish s1 = true -> only_spelling s1 top) -> (is_boolish s2 = true -> only_spelling s2 snd_) ->
+  resolve e (FFindInMap (VStr ms) (FRef (VStr p)) (VStr s2)) = Ok leaf.
+Proof.
+  intros Hm Hp Lp K1 K2 H1 H2 H3 Hn U1 U2. unfold FFindInMap. rewrite resolve_find_in_map, (resolve_ref_plain e p Hp), Lp.
+  cbn [resolve normalize bind].
+  rewrite (plain_text_fixed _ _ Hm), (render_str_key_text _ _ K1), (render_str_key_text _ _ K2).
+  apply (do_find_in_map_boolean_key e ms s1 s2 top snd_ leaf); assumption.
+Qed.
+
+(* REFUTED: the result is rendered (F14b: a leaf "True" / 0 / false comes out as written).
+   NO LONGER REFUTED (finding F31, repaired in the library by acd13a2 and here by [lookup_bk]): "a literal key is looked up as written" --
+   the key "True" is still rendered to "true" first, but now finds the mapping's "True": [ex_find_in_map_boolean_key]. *)
 Definition e_map : env :=
   {| params := [([80], VStr s_True)];
      mappings := [([77], VDict [(s_True, VDict [([107], VStr [121;101;115])]);
@@ -631,11 +690,31 @@ Theorem find_in_map_unrendered_refuted :
   resolve e_map (FFindInMap (VStr [77]) (VStr [97]) (VStr [110])) = Ok (VInt 0) /\
   resolve e_map (FFindInMap (VStr [77]) (VStr [97]) (VStr [102])) = Ok (VBool false).
 Proof. repeat split; vm_compute; reflexivity. Qed.
-Theorem find_in_map_literal_key_refuted :
-  mapping_leaf e_map [77] s_True [107] = Some (VStr [121;101;115]) /\
-  resolve e_map (FFindInMap (VStr [77]) (VStr s_True) (VStr [107])) = Ok (VStr (undefined_mapping [77] (lower s_True) [107])) /\
-  resolve e_map (FFindInMap (VStr [77]) (FRef (VStr [80])) (VStr [107])) = Ok (VStr (undefined_mapping [77] (lower s_True) [107])).
+(* Mappings {"M":{"True":{"k":"yes"}, "a": ...}}, P = "True": FindInMap ["M","True","k"] = FindInMap ["M",{"Ref":"P"},"k"] = "yes";
+   the hypotheses of the two theorems above hold on it *)
+Lemma e_map_only_spelling : only_spelling s_True [(s_True, VDict [([107], VStr [121;101;115])]);
+                                                  ([97], VDict [([84], VStr s_True); ([110], VInt 0); ([102], VBool false)])].
+Proof. intros k' [H|[H|[]]] Hl; [symmetry; exact H | subst k'; vm_compute in Hl; discriminate]. Qed.
+Theorem ex_find_in_map_boolean_key :
+  mapping_leaf e_map [77] (lower s_True) [107] = Some (VStr [121;101;115]) /\
+  key_text s_True = lower s_True /\ is_boolish s_True = true /\ plain_text [77] = true /\ plain_text [80] = true /\
+  ssm_key s_True = None /\ ssm_key [107] = None /\ is_boolish [107] = false /\
+  resolve e_map (FFindInMap (VStr [77]) (VStr s_True) (VStr [107])) = Ok (VStr [121;101;115]) /\
+  resolve e_map (FFindInMap (VStr [77]) (FRef (VStr [80])) (VStr [107])) = Ok (VStr [121;101;115]).
 Proof. repeat split; vm_compute; reflexivity. Qed.
+(* two spellings of one boolean at one level: the FIRST in dictionary order answers (so "looked up as written" needs [only_spelling]);
+   a key present exactly as the lookup text ("true") always answers for itself *)
+Definition maps_two (first second : str) : list (str * value) :=
+  [([77], VDict [(first, VDict [([107], VStr [110;111])]); (second, VDict [([107], VStr [121;101;115])])])].
+Theorem find_in_map_first_spelling_wins :
+  let e12 := {| params := []; mappings := maps_two s_TRUE s_True; conds := fun _ => Ok false |} in
+  let e21 := {| params := []; mappings := maps_two s_True s_TRUE; conds := fun _ => Ok false |} in
+  let e3 := {| params := []; mappings := maps_two s_TRUE S_true; conds := fun _ => Ok false |} in
+  resolve e12 (FFindInMap (VStr [77]) (VStr s_True) (VStr [107])) = Ok (VStr [110;111]) /\
+  resolve e21 (FFindInMap (VStr [77]) (VStr s_True) (VStr [107])) = Ok (VStr [110;111]) /\
+  resolve e21 (FFindInMap (VStr [77]) (VStr s_TRUE) (VStr [107])) = Ok (VStr [110;111]) /\
+  resolve e3 (FFindInMap (VStr [77]) (VStr s_True) (VStr [107])) = Ok (VStr [121;101;115]).
+Proof. cbv zeta. repeat split; vm_compute; reflexivity. Qed.
 
 (* ------------------------------------------------------------------------------------------------------------ *)
 (* 6. Fn::Base64                                                                                                 *)
